@@ -2,32 +2,55 @@
    RdataType.from_text (RdataType.to_text v) = v for all 65536 values (finite sweep), the mnemonics are
    tokenizer words, and the tokens of Bitmap.to_text are read back by Bitmap.from_text as the windows. *)
 From DV Require Import Base.Prelude Model.NameM Model.TokM Model.RdTextM.
-From DV Require Import Proofs.TokEsc Proofs.TokTxt Proofs.TokWords Proofs.TokShape Proofs.TokGeneric
+From DV Require Import Proofs.TokEsc Proofs.TokTxt Proofs.TokWords Proofs.TokHex Proofs.TokShape Proofs.TokGeneric
      Proofs.RdTextAddr Proofs.RdTextBitmap.
 Open Scope Z_scope.
 
-(* ---------- mnemonics: sweep over all types ---------- *)
-Definition rdtype_ok (v : Z) : bool :=
-  match rdtype_to_text v with
-  | Ok n => negb (is_nil n) && forallb safe n
-            && match rdtype_from_text n with Ok v' => v' =? v | _ => false end
+(* ---------- mnemonic-or-number fields: finite sweeps per kind ---------- *)
+Definition enum_ok (k : enum_kind) (v : Z) : bool :=
+  match enum_print k v with
+  | Ok w => negb (is_nil w) && forallb safe w
+            && match enum_parse k w with Ok v' => v' =? v | _ => false end
   | _ => false
   end.
 
-Lemma rdtype_ok_all : forallb rdtype_ok (zrange 65536 0) = true.
+Lemma enum_ok_type : forallb (enum_ok KType) (zrange 65536 0) = true.
+Proof. vm_compute. reflexivity. Qed.
+Lemma enum_ok_ctype : forallb (enum_ok KCtype) (zrange 65536 0) = true.
+Proof. vm_compute. reflexivity. Qed.
+Lemma enum_ok_scheme : forallb (enum_ok KScheme) (zrange 256 0) = true.
+Proof. vm_compute. reflexivity. Qed.
+Lemma enum_ok_alg : forallb (enum_ok KAlgMn) (zrange 256 0) = true.
 Proof. vm_compute. reflexivity. Qed.
 
+Theorem enum_facts k v : 0 <= v <= enum_max k ->
+  exists w, enum_print k v = Ok w /\ w <> [] /\ forallb safe w = true /\ enum_parse k w = Ok v /\ enum_ctor k v = Ok v.
+Proof.
+  intros Hv.
+  assert (H : enum_ok k v = true).
+  { destruct k; cbn [enum_max] in Hv.
+    - pose proof enum_ok_type as G. rewrite forallb_forall in G. apply G. apply zrange_in.
+      assert (E : Z.of_nat 65536 = 65536) by (vm_compute; reflexivity). rewrite E. lia.
+    - pose proof enum_ok_scheme as G. rewrite forallb_forall in G. apply G. apply zrange_in.
+      assert (E : Z.of_nat 256 = 256) by (vm_compute; reflexivity). rewrite E. lia.
+    - pose proof enum_ok_ctype as G. rewrite forallb_forall in G. apply G. apply zrange_in.
+      assert (E : Z.of_nat 65536 = 65536) by (vm_compute; reflexivity). rewrite E. lia.
+    - pose proof enum_ok_alg as G. rewrite forallb_forall in G. apply G. apply zrange_in.
+      assert (E : Z.of_nat 256 = 256) by (vm_compute; reflexivity). rewrite E. lia. }
+  unfold enum_ok in H. destruct (enum_print k v) as [w| |]; try discriminate. exists w.
+  apply andb_true_iff in H as [H H3]. apply andb_true_iff in H as [H1 H2].
+  destruct (enum_parse k w) as [v'| |]; try discriminate. apply Z.eqb_eq in H3. subst v'.
+  split; [reflexivity|]. split; [intros E; rewrite E in H1; discriminate|]. split; [exact H2|]. split; [reflexivity|].
+  unfold enum_ctor. replace ((v <? 0) || (v >? enum_max k)) with false by lia. reflexivity.
+Qed.
+
+
+(* dns.rdatatype.to_text / from_text: the KType instance *)
 Theorem rdtype_facts v : 0 <= v < 65536 ->
   exists n, rdtype_to_text v = Ok n /\ n <> [] /\ forallb safe n = true /\ rdtype_from_text n = Ok v.
 Proof.
-  intros Hv. pose proof rdtype_ok_all as H. rewrite forallb_forall in H.
-  assert (Hin : In v (zrange 65536 0)).
-  { apply zrange_in. assert (E : Z.of_nat 65536 = 65536) by (vm_compute; reflexivity). rewrite E. lia. }
-  specialize (H v Hin). unfold rdtype_ok in H.
-  destruct (rdtype_to_text v) as [n| |]; try discriminate. exists n.
-  apply andb_true_iff in H as [H H3]. apply andb_true_iff in H as [H1 H2].
-  destruct (rdtype_from_text n) as [v'| |]; try discriminate. apply Z.eqb_eq in H3. subst v'.
-  repeat split; try assumption. intros E. rewrite E in H1. discriminate.
+  intros Hv. destruct (enum_facts KType v ltac:(cbn [enum_max]; lia)) as (w & E1 & E2 & E3 & E4 & _).
+  exists w. repeat split; assumption.
 Qed.
 
 (* ---------- the text of a bitmap is a sequence of blank-prefixed words ---------- *)
@@ -134,4 +157,28 @@ Proof.
     + destruct (window_types_facts w bm 0) as [_ Hrange]. apply Forall_forall. intros t Ht. specialize (Hrange t Ht). lia.
   - destruct (bitmap_types_sorted ws w Hc) as [_ Hlow]. apply Forall_forall. intros t Ht.
     specialize (Hlow t Ht). lia.
+Qed.
+
+
+(* ---------- NSAP ---------- *)
+Lemma hexdigit_not_dot v : 0 <= v < 16 -> (hexdigit v =? 46) = false.
+Proof. intros Hv. unfold hexdigit. destruct (v <? 10); lia. Qed.
+
+Lemma hexlify_nsap b : all_bytes b = true ->
+  filter (fun c => negb (c =? 46)) (hexlify b) = hexlify b /\ Nat.even (length (hexlify b)) = true.
+Proof.
+  induction b as [|x b IH]; intros Hb; [split; reflexivity|].
+  cbn [all_bytes forallb] in Hb. apply andb_true_iff in Hb as [Hx Hb]. apply is_byte_range in Hx.
+  destruct (IH Hb) as [I1 I2]. unfold hexlify in *. cbn [flat_map app filter length].
+  rewrite !hexdigit_not_dot by lia. cbn [negb]. rewrite I1. split; [reflexivity|exact I2].
+Qed.
+
+Theorem nsap_roundtrip b : all_bytes b = true ->
+  nsap_from_text ([48; 120] ++ hexlify b) = Ok b /\ forallb safe ([48; 120] ++ hexlify b) = true.
+Proof.
+  intros Hb. destruct (hexlify_nsap b Hb) as [F E]. destruct (Proofs.TokHex.hexlify_safe b Hb) as [S A]. split.
+  - unfold nsap_from_text. cbn [app]. change (starts_with [48; 120] (48 :: 120 :: hexlify b)) with true.
+    cbn [negb skipn]. rewrite F, E. cbn [negb]. rewrite utf8_ascii by exact A. cbn [bind].
+    apply Proofs.TokHex.unhexlify_hexlify, Hb.
+  - cbn [app forallb]. rewrite S. reflexivity.
 Qed.
